@@ -31,6 +31,28 @@ fn verdict_key(v: &adblock::blocker::BlockerResult) -> String {
     show_verdict(v)
 }
 
+/// The same rule under every tag, and untagged, in one bucket — as exception and as important rule: whichever
+/// tags are enabled, the copies that are active must be found behind (and apart from) those that are not.
+fn every_tag_copies(r: &mut Rng) -> Vec<String> {
+    let mut v = vec!["||cdn.test^".to_string()];
+    let mut tagsv = vec!["t1", "t2"];
+    if r.pct(50) {
+        tagsv.reverse();
+    }
+    for t in &tagsv {
+        v.push(format!("@@||cdn.test/x1$tag={}", t));
+        v.push(format!("||cdn.test/x2$important,tag={}", t));
+        v.push(format!("/x1$tag={}", t));
+    }
+    if r.pct(50) {
+        v.push("@@||cdn.test/x1".to_string());
+    }
+    if r.pct(30) {
+        v.push("@@||cdn.test/x2".to_string());
+    }
+    v
+}
+
 // ------------------------------------------------------------------------------------------ C05
 pub fn run_c05(seed: u64, n: usize, out: &mut Out) {
     let mut r = Rng::new(seed);
@@ -59,6 +81,12 @@ pub fn run_c05(seed: u64, n: usize, out: &mut Out) {
             }
             for d in [d1, d2] {
                 aimed.push(("https://x.test/anything".to_string(), format!("https://{}/", d), if t0 == "xhr" { "xhr".to_string() } else { t0.to_string() }));
+            }
+        }
+        if r.pct(20) {
+            lines.extend(every_tag_copies(&mut r));
+            for p in ["x1", "x2"] {
+                aimed.push((format!("https://cdn.test/{}", p), "https://shop.test/".to_string(), "script".to_string()));
             }
         }
         let tags = tagsets(&mut r);
@@ -260,6 +288,9 @@ pub fn run_c04(seed: u64, n: usize, out: &mut Out) {
             let (sl, su) = gen::partial_token_scenario(&mut r);
             lines.extend(sl);
             scenario_url = Some(su);
+        } else if r.pct(25) {
+            lines.extend(every_tag_copies(&mut r));
+            scenario_url = Some(format!("https://cdn.test/{}", r.pick(&["x1", "x2"])));
         }
         // rules of the general grammar ride along (token collisions, `||host*rest`, anchors): precedence and
         // monotonicity are stated about the engine's verdict, so whatever loses a rule in a bucket shows here too
@@ -406,6 +437,15 @@ pub fn run_c13(seed: u64, n: usize, out: &mut Out) {
                 }
             }
         }
+        // replacing the resources replaces them all: after `use_resources` of another (or the empty) set, nothing
+        // of the old set is served
+        let mut resources = resources;
+        if r.pct(15) {
+            let newset: Vec<Resource> = if r.pct(50) { vec![] } else { resources.iter().take(1).cloned().collect() };
+            e.use_resources(newset.clone());
+            resources = newset;
+            out.bump("c13_resources_replaced");
+        }
         let rules = parse_all(&lines);
         if rules.is_empty() {
             continue;
@@ -473,7 +513,15 @@ pub fn run_c15(seed: u64, n: usize, out: &mut Out) {
         }
         let case = Case { lines: lines.clone(), optimize, tags: tags.clone() };
         for _ in 0..5 {
-            let (u, s, t) = gen::cluster_url(&mut r, &lines);
+            let (mut u, s, mut t) = gen::cluster_url(&mut r, &lines);
+            // the policy is a matter of rules and request type, not of the scheme: documents fetched over another
+            // scheme (ftp, file-like hosts) get the policies of the csp rules that match them
+            if r.pct(10) {
+                if let Some(i) = u.find("://") {
+                    u = format!("{}{}", r.pick(&["ftp", "gopher", "chrome-extension", "FTP"]), &u[i..]);
+                    t = r.pick(&["document", "subdocument", "main_frame", "sub_frame"]).to_string();
+                }
+            }
             let t = if r.pct(60) { r.pick(&["document", "subdocument", "main_frame", "sub_frame"]).to_string() } else { t };
             if !u.is_ascii() {
                 continue;
